@@ -188,8 +188,34 @@ def do_nwk(h):
     nwk.get_service("data").on_data_npdu = rec("data")
     nwk.get_service("management").on_command_npdu = rec("management")
     nwk.get_service("interpan").on_interpan_npdu = rec("interpan")
+    def snapshot():
+        return {"active": int(db.get("nwkActiveKeySeqNumber")),
+                "ktables": [[mat.key_sequence_number, bytes(mat.key).hex(),
+                             sorted([[int(a).to_bytes(8, "little").hex() if a is not None else None, int(c)]
+                                     for a, c in mat.incoming_frame_counters.items()], key=lambda x: str(x[0]))]
+                            for mat in db.get("nwkSecurityMaterialSet")]}
     steps = []
     for fh in h["frames"]:
+        if isinstance(fh, dict):        # management operation between two PDUs
+            r = {"mgmt": fh["mgmt"]}
+            try:
+                if fh["mgmt"] == "add_key":
+                    nwk.add_key(bytes.fromhex(fh["key"]), key_sequence_number=fh["seq"])
+                elif fh["mgmt"] == "set_active":
+                    db.set("nwkActiveKeySeqNumber", fh["seq"])
+                elif fh["mgmt"] == "remove_key":
+                    mats = db.get("nwkSecurityMaterialSet")
+                    for mat in list(mats):
+                        if mat.key == bytes.fromhex(fh["key"]):
+                            mats.remove(mat)
+                            break
+                    db.set("nwkSecurityMaterialSet", mats)
+            except Exception as e:  # noqa
+                r["exc"] = type(e).__name__
+            r["up"] = []
+            r.update(snapshot())
+            steps.append(r)
+            continue
         got.clear()
         pdu = Dot15d4(bytes.fromhex(fh))
         payload = pdu[Dot15d4Data].payload if Dot15d4Data in pdu else pdu.payload
@@ -210,6 +236,7 @@ def do_nwk(h):
                            sorted([[int(a).to_bytes(8, "little").hex() if a is not None else None, int(c)]
                                    for a, c in mat.incoming_frame_counters.items()], key=lambda x: str(x[0]))])
         r["tables"] = tables
+        r.update(snapshot())
         steps.append(r)
     return steps
 
